@@ -476,6 +476,7 @@ func (g *c09SrvGen) sectionAPI() verifh.Section {
 		m      string
 		toks   []string
 		secret string
+		prev   string // WithJwtTransition: a token signed with the previous secret must be accepted too
 	}
 	var mounts []mount
 	var secrets []string
@@ -498,7 +499,7 @@ func (g *c09SrvGen) sectionAPI() verifh.Section {
 			}
 			pf = append(pf, one)
 		}
-		secret := ""
+		secret, prevSecret := "", ""
 		dead := false // the call panics: none of its mounts exists
 		addOpt := func() {
 			switch x := r.Intn(100); {
@@ -515,11 +516,12 @@ func (g *c09SrvGen) sectionAPI() verifh.Section {
 						prev = "secret-cccc"
 					}
 					opts = append(opts, "o=jwtt="+secret+","+prev)
+					prevSecret = prev
 					if prev != "" {
 						secrets = append(secrets, prev)
 					}
 				} else {
-					opts = append(opts, "o=jwt="+secret)
+					opts = append(opts, "o=jwt="+secret) // (an earlier WithJwtTransition's previous secret stays)
 				}
 				secrets = append(secrets, secret)
 			case x < 22:
@@ -555,7 +557,7 @@ func (g *c09SrvGen) sectionAPI() verifh.Section {
 		if r.Chance(1, 5) {
 			one, txt := mkRoutes(1)
 			ops = append(ops, fmt.Sprintf("addone %s %s", txt, strings.Join(opts, " ")))
-			mounts = append(mounts, mount{one[0].m, append(append([]string{}, ptoks...), one[0].toks...), secret})
+			mounts = append(mounts, mount{one[0].m, append(append([]string{}, ptoks...), one[0].toks...), secret, prevSecret})
 			_ = dead // (a dead mount is still probed: the requests must find nothing there)
 			continue
 		}
@@ -566,7 +568,7 @@ func (g *c09SrvGen) sectionAPI() verifh.Section {
 		}
 		ops = append(ops, strings.TrimSpace(fmt.Sprintf("add s=%d %s", k, strings.Join(opts, " "))))
 		for _, x := range slices[k] {
-			mounts = append(mounts, mount{x.m, append(append([]string{}, ptoks...), x.toks...), secret})
+			mounts = append(mounts, mount{x.m, append(append([]string{}, ptoks...), x.toks...), secret, prevSecret})
 		}
 	}
 	ops = c09SrvUses(r, ops, nopts)
@@ -610,6 +612,8 @@ func (g *c09SrvGen) sectionAPI() verifh.Section {
 		}
 		op := fmt.Sprintf("req m=%s p=%s n=2", m, p)
 		switch x := r.Intn(100); {
+		case x < 25 && q.prev != "":
+			op += " auth=" + q.prev // signed with the PREVIOUS secret of the route's own group
 		case x < 45 && q.secret != "":
 			op += " auth=" + q.secret
 		case x < 60 && len(secrets) > 0:
